@@ -23,7 +23,7 @@ typedef struct { int ret, finished, stalled, need_dict; size_t outlen, consumed;
 typedef struct { uint32_t ain, aout, cons, prod; uint8_t sb, sa; int8_t ret; } ievent;
 #define MAXEV 4000
 static ievent ev[MAXEV]; static int nev;
-static long st_streams, st_decodes, st_calls, st_deep, st_kind[3], st_false_ok_checked, st_stricter, st_benign_ok, st_resume[16], st_modes[8], st_retcodes[16], st_trailer_straddle, st_detect[4], st_needdict;
+static long st_tail; static long st_streams, st_decodes, st_calls, st_deep, st_kind[3], st_false_ok_checked, st_stricter, st_benign_ok, st_resume[16], st_modes[8], st_retcodes[16], st_trailer_straddle, st_detect[4], st_needdict;
 static long st_fault_fired[DGF_NFAULTS], st_fault_class_ok[DGF_NFAULTS], st_blockpairs[3][3];
 
 static void evtext(char *b, size_t cap) { size_t o = 0; int from = nev > 30 ? nev - 30 : 0; o += snprintf(b + o, cap - o, "calls=%d last:", nev); for (int i = from; i < nev && o + 50 < cap; i++) o += snprintf(b + o, cap - o, " [in%u out%u ->c%u p%u s%u>%u r%d]", ev[i].ain, ev[i].aout, ev[i].cons, ev[i].prod, ev[i].sb, ev[i].sa, ev[i].ret); }
@@ -189,6 +189,9 @@ fail:
 	for (int i = 0; i < NCH; i++) { if (s_ic[i]->released) gs_reacquire(s_ic[i]); if (s_oc[i]->released) gs_reacquire(s_oc[i]); gs_reset(s_ic[i]); gs_reset(s_oc[i]); }
 	return 1;
 }
+/* g_sl_first: when non-zero, the same struct is first used for a one-shot call into g_sl_first-1 bytes of output (which overflows) and then,
+ * without re-initialisation, for the judged call: isal_inflate_stateless() sets up everything it needs itself */
+static size_t g_sl_first; static long st_sl_retry;
 static int run_stateless(int mode, const uint8_t *in, size_t inlen, vrng *r, size_t outcap, const uint8_t *dict, size_t dictlen, int hist_bits, dres *res)
 {
 	struct inflate_state *s = (struct inflate_state *) gs_place(s_st, sizeof *s, vrn(r, 2) ? G_START : G_NEAR_END, 0);
@@ -198,6 +201,7 @@ static int run_stateless(int mode, const uint8_t *in, size_t inlen, vrng *r, siz
 	if (V_TRY(30)) {
 		isal_inflate_init(s); s->crc_flag = mode; s->hist_bits = hist_bits;
 		if (dict && mode != ISAL_ZLIB) { uint8_t *dd = gs_place(s_dict, dictlen, G_END, 0); memcpy(dd, dict, dictlen); isal_inflate_set_dict(s, dd, (uint32_t) dictlen); }
+		if (g_sl_first && !dict && g_sl_first - 1 <= outcap) { s->next_in = pin; s->avail_in = (uint32_t) inlen; s->next_out = pout; s->avail_out = (uint32_t) (g_sl_first - 1); int r0 = isal_inflate_stateless(s); if (r0 == ISAL_OUT_OVERFLOW) st_sl_retry++; s->crc_flag = mode; }
 		s->next_in = pin; s->avail_in = (uint32_t) inlen; s->next_out = pout; s->avail_out = (uint32_t) outcap;
 		ret = isal_inflate_stateless(s); V_END;
 	} else { fault_key("isal_inflate_stateless"); goto fail; }
@@ -304,8 +308,10 @@ static void valid_case(long idx, vrng *r, const char *lvl, int systematic)
 	if (vopt.verbose) { fprintf(stderr, "STREAM "); for (size_t i = 0; i < v.slen && i < 4096; i++) fprintf(stderr, "%02x", strm[i]); fprintf(stderr, "\n"); }
 	int modes[4]; size_t offs[4]; int nm = modes_for(&v, modes, offs);
 	const uint8_t *dict = v.dictlen ? dictb : NULL;
+	/* bytes that do not belong to the stream follow it (the next member, padding): the reported end position must not include them */
+	size_t tail = vrn(r, 3) ? 1 + vrn(r, vrn(r, 2) ? 4 : 40) : 0; for (size_t i = 0; i < tail; i++) strm[v.slen + i] = vrn(r, 4) ? (uint8_t) vr32(r) : vrn(r, 2) ? 0 : 0x78; st_tail += tail != 0;
 	for (int mi = 0; mi < nm; mi++) {
-		int mode = modes[mi]; const uint8_t *in = strm + offs[mi]; size_t inlen = v.slen - offs[mi];
+		int mode = modes[mi]; const uint8_t *in = strm + offs[mi]; size_t inlen = v.slen - offs[mi] + tail;
 		if (v.dictlen && vrn(r, 2)) continue;
 		rverdict rv; ref_verdict(mode, in, inlen, dict, v.dictlen, &rv);
 		set_case(idx, &v, lvl, modename(mode));
@@ -313,12 +319,12 @@ static void valid_case(long idx, vrng *r, const char *lvl, int systematic)
 		dres d;
 		/* (a) stateless with ample and with exact output */
 		size_t caps[3] = { v.elen + 1 + vrn(r, 300), v.elen, v.elen ? v.elen - 1 : 0 };
-		for (int k = 0; k < 3 && !v.dictlen; k++) { if (k && vrn(r, 2)) continue; if (run_stateless(mode, in, inlen, r, caps[k], dict, v.dictlen, 0, &d)) return; if (k == 2 && v.elen) { if (d.finished) viol_ev("stateless-success-without-room", "%zu bytes delivered into %zu", v.elen, caps[k]); continue; } judge(mode, in, inlen, &rv, &d, 1, "stateless", caps[k]); }
+		for (int k = 0; k < 3 && !v.dictlen; k++) { if (k && vrn(r, 2)) continue; g_sl_first = (k < 2 && v.elen >= 2 && vrn(r, 2)) ? 1 + vrn(r, (uint32_t) v.elen) : 0; int bad = run_stateless(mode, in, inlen, r, caps[k], dict, v.dictlen, 0, &d); g_sl_first = 0; if (bad) return; if (k == 2 && v.elen) { if (d.finished) viol_ev("stateless-success-without-room", "%zu bytes delivered into %zu", v.elen, caps[k]); continue; } judge(mode, in, inlen, &rv, &d, 1, "stateless", caps[k]); }
 		/* (b) streaming in one call, (c) random schedule, fresh mapping per chunk */
 		if (run_streaming(mode, in, inlen, r, NICH - 1, NOCH - 1, 0, -1, -1, dict, v.dictlen, 0, 0, &d)) return; judge(mode, in, inlen, &rv, &d, 1, "stream-1call", 0);
 		int ik = vrn(r, NICH + 2), ok = vrn(r, NOCH + 2); if (v.elen > 20000 && ok < 9) ok = NOCH + 1; if (inlen > 20000 && ik < 9) ik = NICH + 1;
 		if (run_streaming(mode, in, inlen, r, ik, ok, vrn(r, 2), -1, -1, dict, v.dictlen, 0, 0, &d)) return; judge(mode, in, inlen, &rv, &d, 1, "stream-sched", 0);
-		if (in == strm + offs[mi] && inlen > 12 && mode_verifies(mode)) { /* cut inside the trailer */ long sp = (long) inlen - 1 - (long) vrn(r, 12); if (run_streaming(mode, in, inlen, r, 0, NOCH - 1, 1, sp, -1, dict, v.dictlen, 0, 0, &d)) return; judge(mode, in, inlen, &rv, &d, 1, "stream-trailer-split", 0); st_trailer_straddle++; }
+		if (in == strm + offs[mi] && inlen > 12 && mode_verifies(mode)) { /* cut inside the trailer */ long sp = (long) (inlen - tail) - 1 - (long) vrn(r, 12); if (run_streaming(mode, in, inlen, r, 0, NOCH - 1, 1, sp, -1, dict, v.dictlen, 0, 0, &d)) return; judge(mode, in, inlen, &rv, &d, 1, "stream-trailer-split", 0); st_trailer_straddle++; }
 		if (systematic && inlen <= 700 && v.elen <= 3000) {   /* every single split point of input and of output */
 			for (long sp = 0; sp <= (long) inlen; sp++) { if (run_streaming(mode, in, inlen, r, 0, NOCH - 1, sp & 1, sp, -1, dict, v.dictlen, 0, 0, &d)) return; judge(mode, in, inlen, &rv, &d, 1, "split-in", 0); }
 			for (long sp = 0; sp <= (long) v.elen && sp < 800; sp++) { if (run_streaming(mode, in, inlen, r, NICH - 1, 0, 0, -1, sp, dict, v.dictlen, 0, 0, &d)) return; judge(mode, in, inlen, &rv, &d, 1, "split-out", 0); }
@@ -450,7 +456,7 @@ int main(int argc, char **argv)
 		}
 	}
 	v_stat("evaluations", st_decodes); v_stat("streams", st_streams); v_stat("library_calls", st_calls); v_stat("streams_with_codes_13plus", st_deep); v_stat("finished_results_checked_against_reference", st_false_ok_checked);
-	v_stat("rejected_but_reference_lenient", st_stricter); v_stat("mutants_still_valid_and_accepted", st_benign_ok); v_stat("trailer_straddling_histories", st_trailer_straddle); v_stat("need_dict_flows", st_needdict);
+	v_stat("rejected_but_reference_lenient", st_stricter); v_stat("mutants_still_valid_and_accepted", st_benign_ok); v_stat("trailer_straddling_histories", st_trailer_straddle); v_stat("need_dict_flows", st_needdict); v_stat("valid_streams_followed_by_foreign_bytes", st_tail); v_stat("stateless_retries_on_the_same_struct_after_overflow", st_sl_retry);
 	v_stat("inflate_dict_calls_refused", st_dict_refused);
 	v_count("stream_source", "grammar", st_kind[0]); v_count("stream_source", "zlib", st_kind[1]); v_count("stream_source", "isal", st_kind[2]);
 	v_count("flip_region", "header", st_detect[0]); v_count("flip_region", "body", st_detect[1]); v_count("flip_region", "trailer", st_detect[2]);
